@@ -28,6 +28,22 @@ Theorem cycle_covers_all :
 Proof. exact covers_all_ok. Qed.
 Print Assumptions cycle_covers_all.
 
+(* The bucket set may change while the crawler is idle between two cycles
+   (uploads, deletions): after any earlier epochs with other directory
+   contents, run by the same crawler object (its one-entry listing cache is
+   carried along) or by restarted ones, a cycle that finishes in the current
+   epoch has processed every bucket of the current contents. *)
+Theorem cycle_covers_all_epochs :
+  forall eps dirs specs tr1 m1 tr2 m2 pre c post,
+    (forall e, In e eps -> wf_dirs prefixes (fst e)) -> wf_dirs prefixes dirs ->
+    epochs_end_idle (load init_pstate) eps ->
+    run_epochs (load init_pstate) eps = (tr1, m1) ->
+    run dirs m1 specs = (tr2, m2) ->
+    tr2 = pre ++ EFinished c :: post ->
+    forall i b, In b (nth i dirs []) -> In (EProc c i b) pre.
+Proof. exact covers_all_epochs_ok. Qed.
+Print Assumptions cycle_covers_all_epochs.
+
 (* Without kills no process_bucket call is repeated, only existing buckets are
    processed, and every bucket of a finished cycle was processed exactly once
    in that cycle. *)
